@@ -4,7 +4,7 @@ CONSTANTS
   NChunks = 3
   CS = 1
   NGets = 3
-  Ranges <- AllRanges
+  Ranges <- GapRanges
   Plays <- NoPlay
   Forces <- NoForce
   MaxInv = 1
